@@ -72,9 +72,25 @@ def case(ctx, case):
             except Exception:
                 pass
     td_in = env.generator(batch_size=[B])
+    if case.get("no_start"):
+        # every other row has NO customer that may be visited first (OP: nothing within reach; SVRP: the first technician is less
+        # skilled than every customer requires): the start rule sends such rows to the depot, their beams must still be feasible
+        rows = list(range(0, B, 2))
+        if name == "op":
+            d = (td_in["locs"] - td_in["depot"][:, None, :]).norm(dim=-1)
+            ml = td_in["max_length"].clone()
+            ml[rows] = d[rows].min(-1).values  # even the nearest customer cannot be visited and left again
+            td_in["max_length"] = ml
+        elif name == "svrp":
+            te = td_in["techs"].clone()
+            te[rows, 0] = td_in["skills"][rows].reshape(len(rows), -1).min(-1).values.reshape(-1, 1) * 0.5
+            td_in["techs"] = te
+        ctx.count("c13_rows_without_feasible_start", len(rows))
     td0 = env.reset(td_in.clone())
     insts = [O.extract(td_in, td0, b, env) for b in range(B)]
     sig = dict(env=name, select_best=case["select_best"], temp=("1" if T == 1.0 else via), history=bool(case.get("warm")))
+    if case.get("no_start"):
+        sig["no_start_rows"] = True
     if case.get("policy", "am") != "am":
         sig["policy"] = case["policy"]
     tol = lambda x: 1e-4 * max(1.0, abs(x))
